@@ -218,3 +218,47 @@ impl<T> EventNode<T> {
         (unsafe { this.value.take().unwrap_unchecked() }, this.time)
     }
 }
+
+#[cfg(petrichorit_des_verif)]
+impl<T> DualLinkedList<T> {
+    /// Verification hook: (id, time) of every node in list order, or a description of the first
+    /// structural defect (broken prev/next symmetry, wrong `len`, sentinel carrying a value).
+    pub(super) fn verif_nodes(&self) -> Result<Vec<(usize, Duration)>, String> {
+        let mut out = Vec::new();
+        let head: *const EventNode<T> = &*self.head;
+        let tail: *const EventNode<T> = &*self.tail;
+        unsafe {
+            if !(*head).prev.is_null() || !(*tail).next.is_null() {
+                return Err("sentinel has an outward link".into());
+            }
+            let mut prev = head;
+            let mut cur: *const EventNode<T> = (*head).next;
+            let mut steps = 0usize;
+            while cur != tail {
+                if cur.is_null() {
+                    return Err("null link inside the list".into());
+                }
+                if (*cur).prev.cast_const() != prev {
+                    return Err(format!("prev/next asymmetry at node id {}", (*cur).id));
+                }
+                if (*cur).value.is_none() {
+                    return Err(format!("inner node id {} carries no value", (*cur).id));
+                }
+                out.push(((*cur).id, (*cur).time));
+                prev = cur;
+                cur = (*cur).next;
+                steps += 1;
+                if steps > self.len + 1 {
+                    return Err("list longer than its len (cycle?)".into());
+                }
+            }
+            if (*tail).prev.cast_const() != prev {
+                return Err("tail.prev does not point to the last node".into());
+            }
+        }
+        if out.len() != self.len {
+            return Err(format!("len {} but {} nodes linked", self.len, out.len()));
+        }
+        Ok(out)
+    }
+}
